@@ -81,7 +81,7 @@ fn c16_natural_cmp_1x1() {
     kani::cover!(ab == Ordering::Greater && !a[0].is_ascii_digit());
 }
 
-// @cell props=C16 tier=thorough kind=attempt timeout=3000 mem=16 cls=N
+// @cell props=C16 tier=thorough kind=attempt timeout=900 mem=16 cls=N
 // @desc natural_cmp on 2-byte vs 2-byte strings over {0,1,9,a,<}: antisymmetry; two digit runs compare by value
 #[kani::proof]
 #[kani::unwind(7)]
